@@ -476,13 +476,41 @@ const fn mk_tag(k: u8, n: usize) -> Tag {
     }
 }
 
-/// a constraint type whose `TAG` is class `K`, number `N`
-struct TC<const K: u8, const N: usize>;
-impl<const K: u8, const N: usize> common::Constraint for TC<K, N> {
+/// a constraint type whose `TAG` is class `K`, number `N`; `B` selects PER-visible INTEGER bounds
+/// (0: none, 1: -1000..1000, 2: i64::MIN..i64::MAX extensible, 3: 0..255) — BER/DER contents do not
+/// depend on them, so every INTEGER request is run under all four and the answers must be the same
+struct TC<const K: u8, const N: usize, const B: u8 = 0>;
+impl<const K: u8, const N: usize, const B: u8> common::Constraint for TC<K, N, B> {
     const TAG: Tag = mk_tag(K, N);
 }
-impl<T: Number, const K: u8, const N: usize> numbers::Constraint<T> for TC<K, N> {}
+impl<T: Number, const K: u8, const N: usize, const B: u8> numbers::Constraint<T> for TC<K, N, B> {
+    const MIN: Option<i64> = match B {
+        1 => Some(-1000),
+        2 => Some(i64::MIN),
+        3 => Some(0),
+        _ => None,
+    };
+    const MAX: Option<i64> = match B {
+        1 => Some(1000),
+        2 => Some(i64::MAX),
+        3 => Some(255),
+        _ => None,
+    };
+    const EXTENSIBLE: bool = B == 2;
+}
 impl<const K: u8, const N: usize> boolean::Constraint for TC<K, N> {}
+
+/// the same tag under the other PER-visible bounds
+trait Variants<T: Number> {
+    type Neg: numbers::Constraint<T>;
+    type Full: numbers::Constraint<T>;
+    type Pos: numbers::Constraint<T>;
+}
+impl<T: Number, const K: u8, const N: usize> Variants<T> for TC<K, N, 0> {
+    type Neg = TC<K, N, 1>;
+    type Full = TC<K, N, 2>;
+    type Pos = TC<K, N, 3>;
+}
 
 /// an enumeration with `COUNT` variants, shaped like the generated code
 /// (`from_choice_index(i)` is `Some` exactly for `i < VARIANT_COUNT`)
@@ -560,7 +588,21 @@ macro_rules! with_enum {
 
 // ------------------------------------------------------------------------------- generic operations
 
-fn rt_number<T: Number + Display, C: numbers::Constraint<T>>(v: T, post: &[u8]) -> String {
+fn rt_number<T: Number + Display, C: numbers::Constraint<T> + Variants<T>>(v: T, post: &[u8]) -> String {
+    let a = rt_number_one::<T, C>(v, post);
+    for (what, b) in [
+        ("-1000..1000", rt_number_one::<T, C::Neg>(v, post)),
+        ("MIN..MAX,...", rt_number_one::<T, C::Full>(v, post)),
+        ("0..255", rt_number_one::<T, C::Pos>(v, post)),
+    ] {
+        if a != b {
+            return format!("bounds-differs [{}] under the PER-visible constraint ({}) instead of [{}]", b, what, a);
+        }
+    }
+    a
+}
+
+fn rt_number_one<T: Number + Display, C: numbers::Constraint<T>>(v: T, post: &[u8]) -> String {
     let mut w = BasicWriter::from(Vec::new());
     Integer::<T, C>::write_value(&mut w, &v).expect("write to Vec");
     let written = w.into_inner();
@@ -579,7 +621,21 @@ fn rt_number<T: Number + Display, C: numbers::Constraint<T>>(v: T, post: &[u8]) 
     )
 }
 
-fn rd_number<T: Number + Display, C: numbers::Constraint<T>>(bytes: &[u8]) -> String {
+fn rd_number<T: Number + Display, C: numbers::Constraint<T> + Variants<T>>(bytes: &[u8]) -> String {
+    let a = rd_number_one::<T, C>(bytes);
+    for (what, b) in [
+        ("-1000..1000", rd_number_one::<T, C::Neg>(bytes)),
+        ("MIN..MAX,...", rd_number_one::<T, C::Full>(bytes)),
+        ("0..255", rd_number_one::<T, C::Pos>(bytes)),
+    ] {
+        if a != b {
+            return format!("bounds-differs [{}] under the PER-visible constraint ({}) instead of [{}]", b, what, a);
+        }
+    }
+    a
+}
+
+fn rd_number_one<T: Number + Display, C: numbers::Constraint<T>>(bytes: &[u8]) -> String {
     on_both!(
         bytes,
         |src| {
